@@ -204,6 +204,11 @@ func (f *Flow) mkTerm(v ssa.Value) *Term {
 				if p, ok := fa.X.(*ssa.Parameter); ok {
 					return &Term{K: TLeaf, V: v, T: v.Type(), key: fmt.Sprintf("<fld:%s.%d>", p.Name(), fa.Field)}
 				}
+				// field of a by-value struct parameter read through its
+				// never-rewritten frame copy (value receiver)
+				if p, ok := spilledParam(fa.X); ok {
+					return &Term{K: TLeaf, V: v, T: v.Type(), key: fmt.Sprintf("<fld:%s.%d>", p.Name(), fa.Field)}
+				}
 			}
 			if g, ok := x.X.(*ssa.Global); ok {
 				if c, ok := f.w.globalInit(g); ok {
